@@ -115,6 +115,14 @@ func reduceNumber(v slip.Object) slip.Object {
 	return v
 }
 
+// reduceValues replaces each of the values with its canonical form.
+func reduceValues(values slip.Values) slip.Values {
+	for i, v := range values {
+		values[i] = reduceNumber(v)
+	}
+	return values
+}
+
 // addFixnums returns the sum of two fixnums which is a bignum if the sum
 // overflows a fixnum.
 func addFixnums(x, y slip.Fixnum) slip.Object {
